@@ -1,0 +1,11 @@
+//go:build verif
+// +build verif
+
+package balance
+
+import "time"
+
+// VerifSetClock overrides the clock read by intervalCredit (verification hook).
+func (b *payPerInterval) VerifSetClock(now func() time.Time) {
+	b.now = now
+}
